@@ -243,7 +243,8 @@ func (b Batch) Fresh() []index.Document {
 		for j := range d.Fields {
 			f := &d.Fields[j]
 			switch {
-			case len(f.Syn) > 0:
+			case len(f.Syn) > 0 || (f.Typ == 's' && f.Vec == nil && f.Shape == nil && len(f.Toks) == 0):
+				// (a synonym field may define nothing: everything was analysed away)
 				hasSyn = true
 				ad.fields = append(ad.fields, &apiSynField{apiField{f, mkTFs(f)}})
 			case f.Vec != nil:
